@@ -60,6 +60,7 @@ def run(ctx):
     # while being resolved must keep them
     from .C06 import rebuild_rules
     rebuild_rules(ctx, "R04.7", only_types=True)
+    _ignorefile_keys(ctx)
     ctx.rule("R04.1", "every export sink of a scan_* function is unreachable once the edges establishing `file is S_local` / `_vis <= min_vis` are removed")
     ctx.rule("R04.2", "member export in define_struct_type/define_method (and free functions in scan_function) is behind the file, deleted/static, visibility and involves_*/ignore* gates; force_publish only for the two documented public cases")
     ctx.rule("R04.3", "involves_unpublished/involves_protected/involves_rvalue_reference/in_ignoreinvolved recurse through const, reference, pointer, typedef and function (return + parameters) wrappers")
@@ -509,3 +510,51 @@ def _commands(ctx):
                 continue
             ctx.ob("R04.5", "predicate|in_%s" % lit, reads == {m}, p.loc(), "in_%s reads %s (expected {%s})" % (lit, sorted(reads), m))
     ctx.floor("R04.5", "commands with a backing set", n, 6)
+
+
+
+def _ignorefile_keys(ctx):
+    """R04.8: an `ignorefile` line of a .N file names a header the way it is written in #include directives.  Every
+    site that asks in_ignorefile() must therefore pass the declaration's _filename_as_referenced; a site that passes
+    another spelling (full path, basename) silently disagrees with the others for directory-qualified names."""
+    db = ctx.db
+    ctx.rule("R04.8", "every in_ignorefile() argument is <declaration>._file._filename_as_referenced (the spelling `ignorefile` lines are matched against); all sites agree")
+    n = 0
+    for f in db.functions:
+        if "/interrogate/" not in f.file:
+            continue
+        for c in f.walk():
+            if c.get("k") != "call" or callee_short(c) != "in_ignorefile" or not c.get("a"):
+                continue
+            n += 1
+            arg = c["a"][0]
+            # a local that holds the name: judge what it was initialised with
+            def unconv(n):
+                n = strip_casts(peel(n))
+                while n is not None and n.get("k") == "call" and "this" in n and (callee_short(n).startswith("operator ") or callee_short(n) in ("get_fullpath", "c_str", "to_string") or "basic_string" in callee_short(n)):
+                    n = strip_casts(peel(n["this"]))
+                while n is not None and n.get("k") == "ctor" and len(n.get("a", [])) == 1:
+                    n = strip_casts(peel(n["a"][0]))
+                return n
+            lr = local_ref(unconv(arg))
+            hops = 0
+            while lr is not None and lr.get("dk") == "local" and hops < 4:
+                init = None
+                for st in f.walk():
+                    if st.get("k") == "decls":
+                        for d in st["d"]:
+                            if d.get("d") == lr.get("d") and d.get("init") is not None:
+                                init = d["init"]
+                if init is None:
+                    break
+                arg = init
+                lr = local_ref(unconv(arg))
+                hops += 1
+            # look through implicit std::string conversions of the Filename
+            flds = [x["n"] for x in walk(arg) if x.get("k") == "mem" and not x.get("method")]
+            calls = [callee_short(x) for x in walk(arg) if x.get("k") == "call" and x is not arg and not (x.get("f") or "").startswith("std::") and callee_short(x) not in ("operator const std::string &", "get_fullpath", "operator basic_string")]
+            ok = bool(flds) and flds[0].endswith("CPPFile::_filename_as_referenced") and not [k for k in calls if k in ("get_basename", "get_dirname", "get_fullpath_wo_extension", "get_basename_wo_extension", "to_os_specific")]
+            ctx.ob("R04.8", "%s|in_ignorefile|%s" % (f.name, show(arg).replace(" ", "")[:60]) if not ok else "%s|in_ignorefile" % f.name, ok, f.loc(c),
+                   "in_ignorefile(%s): %s" % (show(arg)[:70], "the spelling as referenced" if ok else "NOT the declaration's _filename_as_referenced"))
+    ctx.floor("R04.8", "in_ignorefile call sites", n, 8)
+
